@@ -1,6 +1,6 @@
 (* Final statements of the C02 theorems (proved from Hist/Hist.v), for every hash function H, every
    store configuration with MaxActiveTransactions > 0 and EVERY sequence of steps. *)
-From V Require Import Hist.Machine Hist.RingProofs Hist.Lemmas Hist.Chain Hist.Inv Hist.InvSteps Hist.Hist.
+From V Require Import Hist.Machine Hist.RingProofs Hist.Lemmas Hist.Chain Hist.Inv Hist.InvSteps Hist.Hist Hist.Aht.
 From Coq Require Import ZifyN ZifyNat ZifyBool.
 
 Section T.
@@ -59,6 +59,28 @@ Lemma reopen_same_history_partial c ops : 0 < c_maxactive c ->
   forall k, 1 <= k -> k <= s_committed s -> read_tx s' k = read_tx s k.
 Proof.
   intros Hm s. apply (step_hist H s OReopen). apply (reachable_inv H). apply reach; auto.
+Qed.
+
+(* no Close/OpenWith in the execution: every BlRoot is the Merkle root over the earlier Alh values *)
+Lemma blroot_partial c ops k r : 0 < c_maxactive c -> existsb is_reopen ops = false ->
+  let s := run H (init H c) ops in
+  1 <= k -> k <= s_committed s -> read_tx s k = Ok r -> 0 < h_bltxid (r_hdr r) ->
+  h_blroot (r_hdr r) = mth H (alhs s (h_bltxid (r_hdr r))).
+Proof.
+  intros Hm Hno s. apply (blroot_lemma H).
+  - apply (run_inv H). apply init_inv. exact Hm.
+  - apply run_inv2; auto. apply init_inv; auto. apply init_inv2; auto.
+Qed.
+
+(* no DiscardPrecommittedTxsSince in the execution: a commit call that returns success returns the
+   header (id, Alh) of the committed transaction with that id *)
+Lemma ack_partial c ops id alh : 0 < c_maxactive c -> existsb is_discard ops = false ->
+  let s := run H (init H c) ops in
+  In (id, alh) (acked s) -> exists r, read_tx s id = Ok r /\ r_alh r = alh.
+Proof.
+  intros Hm Hno s. apply (ack_lemma H).
+  - apply (run_inv H). apply init_inv. exact Hm.
+  - apply run_inv3; auto. apply init_inv; auto. intros i a Hin. destruct Hin.
 Qed.
 
 End T.
